@@ -259,12 +259,18 @@ def msg_event_requires(s, fsm):
                  'T1: message events occur in a session state (or in Idle, right after this very message closed the session: ignored)')
 
 
+KF_FUNCTION = {'KF-C01-1': 'yabgp.core.fsm.FSM.keep_alive_received', 'KF-C01-2': 'yabgp.core.fsm.FSM.keep_alive_time_event',
+               'KF-C01-3': 'yabgp.core.fsm.FSM.manual_stop', 'KF-C01-4': 'yabgp.core.fsm.FSM.notification_received',
+               'KF-C01-5': 'yabgp.core.fsm.FSM.notification_received'}
+
+
 def known_deviation(s, kf_id, rfc_says):
     """An OPEN known finding with a precisely known deviant behaviour: the row below describes what the code does (so that any
     OTHER behaviour in the same state is still a violation), and the RFC row it departs from is one separately named clause,
     `rfc-row/<id>`, which is refuted on every such path and is the only thing the known-findings entry absorbs.  At call sites
     (contract applied) the deviant row is simply what happens."""
-    if s.c.mode == 'verify':
+    if s.c.mode == 'verify' and getattr(s.it, 'under_verification', None) == KF_FUNCTION[kf_id]:
+        # (only in the unit of the function the finding is about: its callers' units just see the deviant row)
         s.post.append(('rfc-row/%s' % kf_id, lambda: z3.BoolVal(False)))
 
 
